@@ -467,6 +467,9 @@ GO_KINDS = {
     'IndexGO-str': (lambda: sf.IndexGO(('a', 'b')), ['a', 'b'], ['c', 'a', 'd', 1]),
     'IndexGO-empty': (lambda: sf.IndexGO(()), [], ['a', 'b', 'a', 2]),
     'IndexGO-auto': (lambda: sf.IndexGO(range(2), loc_is_iloc=True), [0, 1], [2, 3, 0, 'x', 5]),
+    # a float label equal to the next position: a label like any other, not the continuation of the automatic labels
+    'IndexGO-auto-float-label': (lambda: sf.IndexGO(range(2), loc_is_iloc=True), [0, 1], [2.0, 2, 3.0, 'x']),
+    'FrameGO-auto-columns': (lambda: sf.FrameGO(np.zeros((1, 2))), [0, 1], [2.0, 2, 'x']),
     'IndexGO-auto-empty': (lambda: sf.IndexAutoFactory.from_optional_constructor(0, default_constructor=sf.IndexGO), [], [0, 1, 'x', 0]),
     'IndexDateGO': (lambda: sf.IndexDateGO(('2020-01-01',)), [D('2020-01-01')], [D('2020-01-02'), D('2020-01-01'), D('2019-01-01')]),
     'IndexHierarchyGO': (lambda: sf.IndexHierarchyGO.from_labels([('a', 1), ('a', 2)]), [('a', 1), ('a', 2)], [('a', 3), ('b', 1), ('a', 1), ('b', 2), ('c', 1)]),
@@ -488,14 +491,14 @@ def go_events(kind):
 
 def apply_event(ctx, kind, subject, model, ev, info, derived):
     '''apply one event to the real subject and the model; read events compare on the spot. Returns False on violation.'''
-    ix = subject.columns if kind == 'FrameGO-columns' else subject
+    ix = subject.columns if kind.startswith('FrameGO-') else subject
     hier = kind.startswith('IndexHierarchyGO')
     op, arg = ev
     if op == 'append':
         dup = any(pyset_key(arg) == pyset_key(l) for l in model)
         tree_bad = hier and not tree_ordered(model + [arg])
         try:
-            if kind == 'FrameGO-columns':
+            if kind.startswith('FrameGO-'):
                 subject[arg] = np.zeros(1)
             else:
                 ix.append(arg)
@@ -514,7 +517,7 @@ def apply_event(ctx, kind, subject, model, ev, info, derived):
         vals = list(arg)
         bad = not distinct(model + vals) or (hier and vals and not tree_ordered(model + vals))
         try:
-            if kind == 'FrameGO-columns':
+            if kind.startswith('FrameGO-'):
                 subject.extend_items((v, np.zeros(1)) for v in vals)
             elif hier:
                 if vals:
@@ -536,7 +539,7 @@ def apply_event(ctx, kind, subject, model, ev, info, derived):
             return False
         if ok:
             model.extend(vals)
-        elif kind == 'FrameGO-columns':
+        elif kind.startswith('FrameGO-'):
             # extend_items applies the valid prefix before the failing item (recorded under C09); follow the real object so that the
             # bijection itself can still be checked
             model[:] = [x for x in ix.values.tolist()]
@@ -548,7 +551,7 @@ def apply_event(ctx, kind, subject, model, ev, info, derived):
             elif arg in ('deepcopy+append', 'copy+append'):
                 # a grow-only copy that is itself grown: from now on the two have separate lives
                 import copy as _copy
-                if kind == 'FrameGO-columns':
+                if kind.startswith('FrameGO-'):
                     return True
                 d = _copy.deepcopy(ix) if arg.startswith('deepcopy') else ix.copy()
                 own = {'IndexHierarchyGO': ('zz', 7), 'IndexHierarchyGO-depth3': ('ZZ', 'z', 7), 'IndexDateGO': D('2031-01-01')}.get(kind, 'OWN' if not kind.startswith('IndexGO-auto') else 10 ** 6)
@@ -637,7 +640,7 @@ def run_history(case, ctx):
             ctx.transition()
             if not apply_event(ctx, kind, subject, model, events[i], info, derived):
                 return False
-        ix = subject.columns if kind == 'FrameGO-columns' else subject
+        ix = subject.columns if kind.startswith('FrameGO-') else subject
         ctx.state((kind, tuple(map(repr, model)), bool(getattr(ix, '_recache', False))))
         if len(model) >= 2:
             ctx.nontriv((kind, tuple(hist)))
@@ -647,7 +650,7 @@ def run_history(case, ctx):
         for route, d, labels_then in derived:
             later = [l for l in model if not any(pyset_key(l) == pyset_key(x) for x in labels_then)]
             check_index(ctx, f'{kind}|derived-{route}-after-source-grew', d, labels_then, later + absent, info)
-        if kind == 'FrameGO-columns' and subject.shape[1] != len(model):
+        if kind.startswith('FrameGO-') and subject.shape[1] != len(model):
             ctx.violation(f'{kind}|columns-and-data-out-of-step', **info, shape=subject.shape, labels=len(model))
         return ctx.violation_count == before
 
